@@ -43,6 +43,18 @@ Theorem C25_scheme_preserves_script_impl_partial : forall s,
 Proof. exact scheme_preserves_script_impl_partial. Qed.
 Print Assumptions C25_scheme_preserves_script_impl_partial.
 
+(* result names: Transformation.result is the name as the printer renders it (/repo 65c4527), so that the transformation's
+   full expression parses back to the same name; the bare AST value stored before the fix did not, for reserved words *)
+Theorem C25_result_name_roundtrip : forall reserved n, has_sq n = false ->
+  parse_ident reserved (render_ident_impl reserved n) = Some n.
+Proof. exact quote_reserved_roundtrip_impl. Qed.
+Print Assumptions C25_result_name_roundtrip.
+
+Theorem C25_result_name_bare_refuted_before_fix : forall reserved n,
+  n <> [] -> has_sq n = false -> mem_bytes n reserved = true -> parse_ident reserved n = None.
+Proof. exact bare_reserved_not_identifier. Qed.
+Print Assumptions C25_result_name_bare_refuted_before_fix.
+
 Example C25_example_sorted :
   sorted_script [SRuleset RDatapoint (B "dpr1") (B "define datapoint ruleset dpr1 …");
                  SOperator (B "f") (B "define operator f …");
